@@ -229,7 +229,8 @@ def _parse_place_prefix(s: str):
             continue
         m = re.match(r"(\d+):(-?)(\d*)$", idx)
         if m:
-            place = Place(place.local, place.proj + (("subslice", int(m.group(1)), int(m.group(3) or 0), m.group(2) == "-"),))
+            to = int(m.group(3)) if m.group(3) != "" else None
+            place = Place(place.local, place.proj + (("subslice", int(m.group(1)), to, m.group(2) == "-"),))
             continue
         raise MirParseError(f"bad index {idx!r}")
     return place, rest
@@ -307,6 +308,9 @@ def parse_rvalue(s: str) -> Rvalue:
                 continue
             if op.kind != "const" or True:
                 return Rvalue("cast", (op, mm.group(1).strip(), mm.group(2)), s)
+    m = re.match(r"^([\w:<>{}#@]+) as (?:for<[^>]*> )?(?:unsafe )?(?:extern \"[^\"]*\" )?fn\(.*\(PointerCoercion\((?:ReifyFnPointer|ClosureFnPointer)\([A-Za-z]*\), [A-Za-z]*\)\)$", s, re.S)
+    if m:
+        return Rvalue("use", (Operand("const", const=m.group(1)),), s)
     if s.startswith("copy ") or s.startswith("move ") or s.startswith("const "):
         return Rvalue("use", (parse_operand(s),), s)
     # aggregates
